@@ -65,13 +65,71 @@ theorem xdev_move_is_fail_stop (c : Cfg) (io : Nat → Fault) (st : St) (hrun : 
   unfold moveOut
   simp only []
   split
-  · simp [renameP, hg, hg2]
+  · split <;> simp [renameP, hg, hg2, clearOut]
   · split
     · simp
     · simp [renameP, hg, hg2, clearOut]
 
+/-! ### `Close()` after a successful move out of the work dir (defect fixed by F19) -/
+
+/-- full statement: whenever `Close()` returns with the tool still running, no descriptor is left in `f.out` -/
+def close_leaves_no_descriptor (c : Cfg) : Prop :=
+  ∀ (io : Nat → Fault) (st : St), (closeOut c io st).status = .running → (closeOut c io st).hasOut = false
+
+/-- … holds for the tree with fix F19 (`closeClears = true`): every path of `Close()` that keeps running ends in
+`f.out = nil` — also the successful work-dir → output-dir move -/
+theorem close_leaves_no_descriptor_fixed (c : Cfg) (hcc : c.closeClears = true) : close_leaves_no_descriptor c := by
+  intro io st
+  have hclear : ∀ s : St, (clearOut s).status = .running → (clearOut s).hasOut = false := by
+    intro s; unfold clearOut; split
+    · intro h; simp_all
+    · intro _; rfl
+  unfold closeOut
+  by_cases hho : st.hasOut = false
+  · rw [if_pos hho]; intro _; exact hho
+  · rw [if_neg hho]
+    simp only []
+    split
+    · intro h; simp_all
+    · split
+      · exact hclear _
+      · unfold moveOut
+        simp only [hcc, if_true]
+        split
+        · exact hclear _
+        · split
+          · intro h; simp at h
+          · exact hclear _
+
+/-- … and is **false for the tree before F19** (`closeClears = false`, work dir in use): after one message and a
+SIGHUP the finished file has been moved, the tool is running, and `f.out` still holds the closed descriptor … -/
+theorem close_leaves_no_descriptor_false : ¬ close_leaves_no_descriptor cfgGzWork := by
+  intro h
+  have := h (fun _ => .ok) (step cfgGzWork (fun _ => .ok) (init FS.empty) (.msg ⟨1, [104]⟩ 0 "t<REV>") false)
+  revert this
+  decide
+
+/-- … so the next message hits it and the tool takes its `os.Exit(1)` (fail-stop: the message is not finished).
+Each SIGHUP therefore costs a restart and one more attempt of the in-flight messages — together with the library's
+`max_attempts` give-up (finding above) a realistic path to an acknowledged-but-unwritten message. -/
+theorem hup_then_message_kills_tool_before_F19 :
+    (run cfgGzWork (fun _ => .ok) (init FS.empty)
+      [(.msg ⟨1, [104]⟩ 0 "t<REV>", false), (.hup, false), (.msg ⟨2, [105]⟩ 1 "t<REV>", false)]).status = .fatalExit
+    ∧ (run cfgGzWork (fun _ => .ok) (init FS.empty)
+      [(.msg ⟨1, [104]⟩ 0 "t<REV>", false), (.hup, false), (.msg ⟨2, [105]⟩ 1 "t<REV>", false)]).finished.map (·.id) = [1] := by
+  decide
+
+/-- with F19 the same history keeps the tool running and finishes both messages -/
+theorem hup_then_message_survives_with_F19 :
+    (run { cfgGzWork with closeClears := true } (fun _ => .ok) (init FS.empty)
+      [(.msg ⟨1, [104]⟩ 0 "t<REV>", false), (.hup, false), (.msg ⟨2, [105]⟩ 1 "t<REV>", false)]).status = .running
+    ∧ (run { cfgGzWork with closeClears := true } (fun _ => .ok) (init FS.empty)
+      [(.msg ⟨1, [104]⟩ 0 "t<REV>", false), (.hup, false), (.msg ⟨2, [105]⟩ 1 "t<REV>", false)]).finished.map (·.id) = [2, 1] := by
+  decide
+
 /-! ### non-vacuity -/
 
+example : close_leaves_no_descriptor { cfgGzWork with closeClears := true } := close_leaves_no_descriptor_fixed _ rfl
 example : ¬ toolSafeAt 5 := tool_unsafe_with_giveup 5 (by decide)
 example : (toolStep cfgPlain (fun _ => .ok) 5 (init FS.empty) ⟨1, [104]⟩ 6 0 "t" false).finished = [⟨1, [104]⟩] := by decide
 example : ((toolStep cfgPlain (fun _ => .ok) 0 (init FS.empty) ⟨1, [104]⟩ 6 0 "t" false).fs.get ⟨true, "t", 0⟩).isSome = true := by
